@@ -494,9 +494,38 @@ def g14(repo, res, rule="G14"):
         res.undecided.append(f"{rule}: MagicProperties.copy uses neither deepcopy(self) nor as_dict(); depth of the copy not decided")
 
 
+def g15(repo, res):
+    """G15 the three notations reach get_style as ONE flat underscore dictionary: RegisteredBackend.show collects every keyword that
+    starts with "style" and passes it through linearize_dict (nested dicts flattened, separator "_").  The ORIGIN run of get_style
+    (G4/G5) assumes exactly that; a partial merge makes mixed notation order dependent (a nested group given last replaces the
+    underscore keywords of the same group)."""
+    m = repo.mod("magpylib._src.display.display")
+    cl = repo.cls_by_key.get((m.name, "RegisteredBackend"))
+    res.require(cl is not None and "show" in cl.methods, "anchor vanished: display.RegisteredBackend.show")
+    fn = cl.methods["show"]
+    calls = [c for c in ast.walk(fn) if isinstance(c, ast.Call) and getattr(c.func, "id", getattr(c.func, "attr", "")) == "linearize_dict"]
+    ok = False
+    for c in calls:
+        arg = c.args[0] if c.args else None
+        sep = next((k.value for k in c.keywords if k.arg == "separator"), c.args[1] if len(c.args) > 1 else None)
+        # the argument must be the collection of the style keywords (a name bound from a comprehension filtering on "style")
+        src = None
+        if isinstance(arg, ast.Name):
+            defs = [s_.value for s_ in ast.walk(fn) if isinstance(s_, ast.Assign) and any(isinstance(t, ast.Name) and t.id == arg.id for t in s_.targets)]
+            src = next((d for d in defs if isinstance(d, ast.DictComp)), None)
+        elif isinstance(arg, ast.DictComp):
+            src = arg
+        if src is not None and "style" in ast.unparse(src) and isinstance(sep, ast.Constant) and sep.value == "_":
+            ok = True
+    res.ob("G15:show() flattens all style keywords with linearize_dict", ok, {"rule": "G15", "linearize_calls": [norm(c) for c in calls]})
+    if not ok:
+        res.add(Finding("G15", m.rel, "RegisteredBackend.show", fn, "the style keywords of show() are not passed as a whole through linearize_dict(.., separator='_'): "
+                        "nested and underscore notation given in one call are merged order dependently and one of them is lost", fn.lineno))
+
+
 def run(repo, res, tier):
     res.rules = ["G1 reset/DEFAULTS vs property tree", "G2 alias-free properties", "G3 leaf setters validate", "G4 no caller dict mutated/captured", "G5 precedence dataflow in get_style", "G6 no memoisation on the style path", "G7 temporary style removed on all exits", "G8 exact validation of style names", "G5b None-filters not truthiness", "REC-FWD style keywords forwarded through recursion", "G4b style setter adopts no foreign style object", "G10 no preset values in style constructors",
-                 "G12 generic families before specific ones", "G13 lazy style kwargs not bypassed", "G14 style copies are deep"]
+                 "G12 generic families before specific ones", "G13 lazy style kwargs not bypassed", "G14 style copies are deep", "G15 show() flattens every style keyword", "G16 admitted-value tables are collections, not strings"]
     g1(repo, res)
     g2_g3(repo, res)
     import origin_rules
@@ -509,6 +538,9 @@ def run(repo, res, tier):
     g12(repo, res)
     g13(repo, res)
     g14(repo, res)
+    g15(repo, res)
+    import rules_domain
+    rules_domain.sets_are_collections(repo, res, 'G16')
     res.assumptions += ["property tree links are the validate_property_class(val, name, Class, self) calls in the setters",
                         "NumPy/stdlib copy-view table of origdom.py (dict.copy / dict display / {**d} are copies one level deep)"]
     return {}
